@@ -683,7 +683,7 @@ func rebuild(t *Term, args []*Term) *Term {
 	case "<":
 		return ILt(args[0], args[1])
 	}
-	return TS.intern(&Term{Op: t.Op, Sort: t.Sort, Args: args, Idx: t.Idx})
+	return TS.intern(&Term{Op: t.Op, Sort: t.Sort, Args: args, Idx: t.Idx, Name: t.Name})
 }
 
 // ---------- Int arithmetic ----------
